@@ -11,7 +11,9 @@ from bbox import Sandbox, Rng, blake3_hex, hexs, HOST, CLI_BIN
 
 CONTENTS = [b"one\n", b"two two\n", b"3", b"", b"four-four-four-four\n", b"\x00\xff\x00five", b"six" * 50,
             # same lengths as others above: a rewrite that changes neither size nor (within the second of the last run) mtime
-            b"1ne\n", b"ONE\n", b"TWO two\n", b"4"]
+            b"1ne\n", b"ONE\n", b"TWO two\n", b"4",
+            # block-multiple lengths ending in (or made of) zero blocks: a copy that keeps files sparse must still deliver every byte
+            bytes(range(256)) * 256 + b"\x00" * 65536, b"\x00" * 131072, b"\x00" * 65536 + b"tail" + b"\x00" * 65532 + b"\x00" * 65536]
 PATHS = ["p", "q", "d/r", "d/e/s", "t.txt", "a b", "d.x"]
 # every random history also gets three names from this list (seed C06-D: a file name containing `..` made the archive
 # look tampered). None is a directory prefix of another or of PATHS; none ends in the reserved staging suffix.
